@@ -52,7 +52,7 @@ def handle (line : String) : String :=
       match bytesOfHex ha, bytesOfHex hb, (if tmpl == "s" then some Biogo.Fastq.Encoding.none else encOfString tmpl) with
       | some a, some b, some enc =>
         let cfg := fastqCfg tmpl enc
-        let m := fastqCalls (Biogo.Fastq.readAll cfg a) ++ " | " ++ fastqCalls (Biogo.Fastq.readAll cfg b)
+        let m := fastqCalls (Biogo.Fastq.readAll cfg (eofWithData a) a) ++ " | " ++ fastqCalls (Biogo.Fastq.readAll cfg (eofWithData b) b)
         verdict a b m obs (["fastq", if tmpl == "s" then "tmpl-seq" else encName enc] ++ tg.splitOn ",")
       | _, _, _ => bad "fq4"
     | _ => bad "unknown-op"
